@@ -238,15 +238,6 @@ func c20One(env *fw.Env, i int64) {
 			t.accepted++
 		}
 	}
-	quiesce := func(p *peer.Conn) bool {
-		if _, err := p.Barrier(10 * time.Second); err != nil {
-			return false
-		}
-		time.Sleep(5 * time.Millisecond) // let the async sender drain, then fence again
-		_, err := p.Barrier(10 * time.Second)
-
-		return err == nil
-	}
 	dataAt := func(conns ...*peer.Conn) int64 {
 		var n int64
 		for _, c := range conns {
@@ -260,8 +251,36 @@ func c20One(env *fw.Env, i int64) {
 		return n
 	}
 
+	// quiesce: wait (never a verdict) until the peer has read as many data frames as calls were accepted,
+	// so that every reply the peer will ever write has been written, then fence with Linktest barriers
+	// (the barrier response travels through the async queue behind any queued data frame).
+	accepted := func(cl []*c20Call) int64 {
+		var n int64
+		for _, c := range cl {
+			if !errors.Is(c.err, hsms.ErrNotSelectedState) {
+				n++
+			}
+		}
+
+		return n
+	}
+	quiesce := func(want int64, conns ...*peer.Conn) bool {
+		waitFor(5*time.Second, func() bool { return dataAt(conns...) >= want })
+		p := conns[len(conns)-1]
+		if _, err := p.Barrier(10 * time.Second); err != nil {
+			return false
+		}
+		_, err := p.Barrier(10 * time.Second)
+
+		return err == nil
+	}
+
 	var tA tally
 	callsA := runCalls("a1", cs.Per)
+	if !quiesce(accepted(callsA), pc) {
+		env.Violate("link-dropped", "the fault-free part lost the link", cs)
+		return
+	}
 	// a Deselect window: calls here are refused (drop+1 each), none reaches the wire
 	_ = pc.Send(peer.DeselectReq(0x1234, 0xDE5E0001))
 	if !waitState(rg.Conn, hsms.NotSelectedState, 10*time.Second) {
@@ -276,7 +295,7 @@ func c20One(env *fw.Env, i int64) {
 	}
 	callsA = append(callsA, runCalls("a3", 2)...)
 	count(callsA, &tA)
-	if !quiesce(pc) {
+	if !quiesce(accepted(callsA), pc) {
 		env.Violate("link-dropped", "the fault-free part lost the link", cs)
 		return
 	}
@@ -337,7 +356,7 @@ func c20One(env *fw.Env, i int64) {
 	defer pc2.Close()
 	var tB tally
 	count(callsB, &tB)
-	if !quiesce(pc2) {
+	if !quiesce(0, pc2) {
 		env.Violate("link-dropped", "the recovered link does not answer", cs)
 		return
 	}
